@@ -81,7 +81,7 @@ def confirm(pid, ob, label, model, seed=0):
     sc = dict(sc)
     sc['_meta'] = {'property': pid, 'obligation': ob.name, 'check': label, 'model': model}
     out = run_scenario(sc, path)
-    if 'build_error' in out or 'replay_error' in out or 'setup_error' in out:
+    if 'build_error' in out or 'replay_error' in out or ('setup_error' in out and not sc.get('_setup_error_ok')):
         return {'status': 'not_reproduced', 'path': path, 'detail': json.dumps(out)[:800]}
     try:
         bad, why = judge(out)
@@ -92,6 +92,32 @@ def confirm(pid, ob, label, model, seed=0):
         sc['_verdict'] = why
         json.dump(sc, f, indent=1)
     return {'status': 'confirmed' if bad else 'not_reproduced', 'path': path, 'detail': why}
+
+
+def fidelity(pid, ob, model):
+    """translator validation on the unchanged tree: a concrete witness of the obligation's normal path (inputs + every observable the
+    executor predicts) is run natively; the native run must reproduce every predicted observable.
+    returns {'status': 'agrees'|'differs'|'skipped', 'detail': ...}"""
+    rb = getattr(ob, 'replay', None)
+    if rb is None or not getattr(rb, 'generic', False):
+        return {'status': 'skipped', 'detail': 'no generic (observable-comparing) replay builder'}
+    if not model.get('_obs'):
+        return {'status': 'skipped', 'detail': 'no observables registered before the witness point'}
+    try:
+        built = rb('fidelity', model)
+    except Exception as e:
+        return {'status': 'skipped', 'detail': 'replay builder failed: %r' % (e,)}
+    if built is None:
+        return {'status': 'skipped', 'detail': 'no scenario'}
+    sc, judge = built
+    out = run_scenario(dict(sc))
+    if 'build_error' in out or 'replay_error' in out or 'setup_error' in out:
+        return {'status': 'differs', 'detail': json.dumps(out)[:600]}
+    try:
+        same, why = judge(out)
+    except Exception as e:
+        return {'status': 'differs', 'detail': 'judge failed: %r' % (e,)}
+    return {'status': 'agrees' if same else 'differs', 'detail': why, 'observables': len(model.get('_obs', {}))}
 
 
 def replay_cli(pid, path):
